@@ -94,6 +94,7 @@ passes unedited after each -- the four `middleware/proxy` tests that need DNS fa
 | C01 | `46a663b` | after `Path()`/`Method()` override the old tree index was reused: middleware ran twice / later matching routes answered 404 |
 | C01 | `6bd4617` | `Use(/, override->POST); Get(/); Use(/, h)`: `h` never ran for `GET /` (the POST stack had merged the two `Use(/)`); `Use(/a); Post(/); Use(/a, override)` ran the overriding middleware twice |
 | C04 | `c8ee2b3` | under a parameterised mount prefix the mounted handler never ran or saw shifted `Params`; root/star flags lost by mounting |
+| C04 | `f811e1d` | a sub-app mounted at `/` inside a sub-app itself mounted at `/`: start-up nil dereference (first recorded as a finding; a later look found a four-line repair: expand a mounted app's own mounts before copying its routes) |
 | C08 | `b918f62` | mounted error handler chosen without segment boundary (`/api` handler answered `/apix/boom`), map-order dependent, shadowing |
 | C13 | `d080fab` | sliding window ignored `MaxFunc` |
 | C13 | `eaf1939` | a skipped request that outlives its window was un-counted in the next window (limit + 1 admitted) |
@@ -115,7 +116,6 @@ passes unedited after each -- the four `middleware/proxy` tests that need DNS fa
 
 | id | what fails | why not repaired |
 |---|---|---|
-| `C04-nested-root-mount` | a sub-app mounted at `/` inside a sub-app itself mounted at `/` (inner first): start-up nil dereference | both get the key `/` in the parent's `appList`; needs the mount bookkeeping redesigned, not a small patch |
 | `C18-jar-path-direction` | cookie with `Path=/api` is sent to `/` and not to `/api/x` (prefix test reversed) | the repository's `Test_CookieJarGet` asserts the reversed behaviour; the suite cannot stay unedited |
 | `C12-raw-msgpack-cookie-conforming-client` | `net/http` refuses the redirect response / its jar drops the value: a conforming client never delivers any flash message | the redirect tests read and write the cookie as raw MessagePack; a printable encoding breaks them |
 | `C12-raw-msgpack-cookie-control-bytes` | control bytes, `;`, `,`, `"`, blank, backslash from levels, lengths and values inside the cookie value, even for a byte-transparent peer | same |
